@@ -2,6 +2,7 @@ mod extract;
 mod ops_config;
 mod ops_graph;
 mod ops_names;
+mod ops_robust;
 mod ops_types;
 mod ops_valid;
 mod project;
@@ -27,6 +28,7 @@ pub fn exec(op: &str, input: &Value) -> (Value, Value) {
         "validator" => ops_valid::exec_validator(input),
         "configSave" => ops_config::exec_config_save(input),
         "project" => project::exec_project(input),
+        "robustSrc" => ops_robust::exec_robust(input),
         _ => (input.clone(), json!({"error": format!("unknown op {}", op)})),
     }
 }
@@ -97,6 +99,8 @@ fn main() {
         "types" => ops_types::run(&mut out, &tier, &mut rng),
         "mappings" => ops_types::run_mappings(&mut out, &tier, &mut rng),
         "shapes" => ops_types::run_shapes(&mut out, &tier, &mut rng),
+        "robust" => ops_robust::run(&mut out, &tier, &mut rng),
+        "attrfuzz" => ops_robust::run_attrfuzz(&mut out, &tier, &mut rng),
         "fields" => ops_names::run_fields(&mut out, &tier, &mut rng),
         "params" => ops_names::run_params(&mut out, &tier, &mut rng),
         "valid" => ops_valid::run(&mut out, &tier, &mut rng),
